@@ -111,7 +111,13 @@ def m2mpc(infile: str) -> dict:
                 field = 'bus_name'
             else:
                 continue
-        elif end.search(line):
+        elif end.search(line.split('%')[0]):
+            # the closing bracket may share the line with the last row of the section
+            last_row = line.split('%')[0].split(']')[0]
+            if field != 'bus_name' and has_digit.search(last_row):
+                for item in last_row.split(';'):
+                    if has_digit.search(item):
+                        mpc[field].append(np.array([float(val) for val in item.split()]))
             field = None
             continue
 
